@@ -245,7 +245,12 @@ func (g *pgen) expr(d int) Expr {
 		if k == 11 && len(g.asyncs) > 0 {
 			f := g.asyncs[g.t.Draw(len(g.asyncs))]
 			g.use("await-async-call")
-			return &EAwait{E: &EAsyncStart{Fn: f.Name, Args: []Expr{g.expr(d - 1)}}}
+			aw := &EAwait{E: &EAsyncStart{Fn: f.Name, Args: []Expr{g.expr(d - 1)}}}
+			if g.t.Draw(3) == 2 {
+				g.use("await-promise-with-foreign-constructor")
+				aw.Tamper = true
+			}
+			return aw
 		}
 		return &EAwait{E: g.expr(d - 1)}
 	}
